@@ -224,10 +224,14 @@ def h(x):
 
 
 def load_known():
+    out = []
     p = os.path.join(ROOT, "known_findings.json")
-    if not os.path.exists(p):
-        return []
-    return json.load(open(p)).get("findings", [])
+    if os.path.exists(p):
+        out += json.load(open(p)).get("findings", [])
+    for q in sorted(glob.glob(os.path.join(ROOT, "known_findings.proposed", "*.json"))):
+        j = json.load(open(q))
+        out += j.get("findings", []) if isinstance(j, dict) else j
+    return out
 
 
 class Check:
